@@ -13,6 +13,7 @@ Decides one property of /repo's current working tree (DESIGN.md §2):
   infrastructure failure (driver crash, timeout, missing toolchain) -> exit 2, never a VIOLATION.
 Evidence is written to evidence/<id>.json on every run."""
 import hashlib
+import struct
 import json
 import os
 import random
@@ -301,6 +302,22 @@ def match_known(v, known):
         elif m.get('kind') == 'overlap_filter_pair_empty_string':
             if case.get('entry') == 'filter' and case.get('kind') == 'overlap' and '' in (case.get('strings') or []) and 'filter_pair' in v.get('what', ''):
                 return k
+        elif m.get('kind') == 'cosine_size_window_admits_zero':
+            # the count 0 inside the COSINE size window although round(t*t*n, 4) == 0 only because of the 4-decimal slack
+            if case.get('entry') == 'size_grid' and case.get('m') == 'COSINE' and case.get('k') == 0 and \
+                    round(case['t'] * case['t'] * case['n'], 4) == 0 and 'keeps hopeless' in v.get('what', ''):
+                return k
+            if case.get('entry') == 'filter' and case.get('kind') == 'size' and (case.get('filter') or {}).get('measure') == 'COSINE' and \
+                    'cannot reach the threshold' in v.get('what', '') and re.search(r'sizes (\d+)/0\)$', v.get('what', '')):
+                t = (case.get('filter') or {}).get('threshold')
+                t = t.get('f') if isinstance(t, dict) else t
+                try:
+                    tf = struct.unpack('>d', bytes.fromhex(t))[0] if isinstance(t, str) else float(t)
+                except Exception:      # noqa: BLE001
+                    tf = None
+                n0 = int(re.search(r'sizes (\d+)/0\)$', v['what']).group(1))
+                if tf is not None and round(tf * tf * n0, 4) == 0:
+                    return k
         elif m.get('kind') == 'tiny_threshold':
             t = case.get('threshold')
             if isinstance(t, float) and 0 < t < float(m['below']):
